@@ -507,10 +507,11 @@ func (hs *serverHandshakeState) checkForResumption() bool {
 		}
 	}
 
-	if hs.sessionState == nil || hs.sessionState.vers > hs.clientHello.vers {
+	if hs.sessionState == nil {
 		return false
 	}
-	if vers, ok := c.config.mutualVersion(hs.sessionState.vers); !ok || vers != hs.sessionState.vers {
+	// Never resume a session for a different TLS version.
+	if c.vers != hs.sessionState.vers {
 		return false
 	}
 
